@@ -72,6 +72,7 @@ def lockset_units(prop):
 #: which unit families each property draws on
 FAMILIES = {
     "C36": ["timeconv"],
+    "C33": ["aio"],
     "C31": ["evloop"],
     "C34": ["evloop"],
     "C14": ["early", "op", "srcfac", "own", "class", "subscribe", "tramp"],
@@ -129,6 +130,8 @@ def units_for(prop, tier):
         us.append({"runner": "replay", "prop": prop, "id": "reactivex/subject/replaysubject.py::ReplaySubject"})
     if "timedextra" in fams:
         us.append({"runner": "timedextra", "prop": prop, "id": f"timed-operators-not-under-contract/{prop}"})
+    if "aio" in fams:
+        us.append({"runner": "aio", "prop": prop, "id": "reactivex/scheduler/eventloop/asynciothreadsafescheduler.py::AsyncIO(ThreadSafe)Scheduler"})
     if "evloop" in fams:
         us.append({"runner": "evloop", "prop": prop, "id": "reactivex/scheduler/eventloopscheduler.py::EventLoopScheduler"})
     if "timeconv" in fams:
